@@ -1193,7 +1193,105 @@ def run_argalias(case):
     return run, viols
 
 
+# ------------------------------------------------------------ decoding histories
+def _hist_build(item):
+    import pulser
+
+    t = item["type"]
+    if t == "layout":
+        return build_layout(item["spec"])
+    if t == "register":
+        sp = item["spec"]
+        return _quiet(build_layout(sp["layout"]).define_register, *sp["traps"], qubit_ids=sp["ids"])
+    if t == "device":
+        return _quiet(build_device, item["spec"])
+    if t == "detmap":
+        from pulser.register.weight_maps import DetuningMap
+
+        sp = item["spec"]
+        return DetuningMap(sp["coords"], sp["weights"], slug=sp["slug"])
+    return _quiet(build_noise, item["args"])
+
+
+def _hist_snap(t, o):
+    if t == "layout":
+        return S.snap_layout(o)
+    if t == "register":
+        return snap_register(o)
+    if t == "detmap":
+        return snap_detmap(o)
+    if t == "device":
+        return S.snap_dataclass(o)
+    return S.snap_noise(o)
+
+
+def _hist_roundtrip(t, o):
+    """-> (json object, decoded object); public API wherever there is one"""
+    from pulser.json.abstract_repr.serializer import AbstractReprEncoder
+
+    if t == "detmap":
+        from pulser.json.abstract_repr.deserializer import _deserialize_det_map
+
+        j = json.loads(json.dumps(o, cls=AbstractReprEncoder))
+        return j, _deserialize_det_map(json.loads(json.dumps(j)))
+    s = _quiet(o.to_abstract_repr)
+    return json.loads(s), _quiet(type(o).from_abstract_repr, s)
+
+
+def run_history(case):
+    """Objects sharing a key-like part are decoded one after the other in one
+    process.  Every decoded object must equal ITS OWN original in every field
+    (slug included), whatever was decoded before, and a decoded object must
+    not change when another one is decoded later."""
+    viols = []
+    sp = case["spec"]
+    run = dict(kind="history", family=sp["family"], steps=[])
+    try:
+        objs = [_hist_build(it) for it in sp["items"]]
+    except Exception as e:  # noqa: BLE001
+        run["invalid"] = f"{type(e).__name__}: {e}"[:300]
+        return run, viols
+    origs = [_hist_snap(it["type"], o) for it, o in zip(sp["items"], objs)]
+    decoded = []  # (type, object, snapshot at decoding time, step)
+    reported = set()
+
+    def bad(sig, what):
+        if sig not in reported:
+            reported.add(sig)
+            viols.append(Violation(sig, what, case))
+
+    for step, i in enumerate(sp["order"]):
+        t = sp["items"][i]["type"]
+        try:
+            j, dec = _hist_roundtrip(t, objs[i])
+        except Exception as e:  # noqa: BLE001
+            bad(f"history:{t}:roundtrip-raises:{type(e).__name__}", f"step {step}: {e}"[:300])
+            run["steps"].append(dict(type=t, json=None, dec=None))
+            continue
+        dsnap = _hist_snap(t, dec)
+        run["steps"].append(dict(type=t, json=j, dec=dsnap))
+        for p_ in diff_paths(origs[i], dsnap):
+            bad(
+                f"history:{t}:field-differs:{p_}",
+                f"step {step} of a decoding history ({sp['family']}): {t} #{i} decoded with {p_!r} different from its own "
+                f"original (original {origs[i].get(p_.split('.')[0].replace('[]', ''))!r})"[:500],
+            )
+        if type(dec) is not type(objs[i]):
+            bad(f"history:{t}:class-differs", f"step {step}: {type(objs[i]).__name__} decoded as {type(dec).__name__}")
+        # earlier decoded objects must not move
+        for (t0, o0, s0, st0) in decoded:
+            for p_ in diff_paths(s0, _hist_snap(t0, o0)):
+                bad(f"history-shared-state:{t0}:{p_}", f"decoding {t} at step {step} changed {p_!r} of the {t0} decoded at step {st0}")
+        decoded.append((t, dec, dsnap, step))
+    # the originals must not move either
+    for it, o, s0 in zip(sp["items"], objs, origs):
+        for p_ in diff_paths(s0, _hist_snap(it["type"], o)):
+            bad(f"history-shared-state:original-{it['type']}:{p_}", f"decoding changed {p_!r} of an original {it['type']}")
+    return run, viols
+
+
 RUNNERS = dict(
+    history=run_history,
     argalias=run_argalias,
     device=run_device,
     noise=run_noise,
